@@ -337,7 +337,11 @@ def judge(sh, lab, case):
             except Exception as e:
                 sh.violate("table-modified", case, "after refused set_header_row / add_row calls rendering raised %r" % (e,))
     if hash(out) % 4 == 0:
-        new_hdr = [(c + " N").upper() if c else "N" for c in (case["header"] or case["rows"][0])]
+        def upper_text(cell):
+            # the text in capitals, the style tags as they are (tag names are lower-case words)
+            return "".join(part if TAG.fullmatch(part) else part.upper() for part in re.split(r"(</?[a-z0-9]*>)", cell))
+
+        new_hdr = [upper_text(c + " N") if c else "N" for c in (case["header"] or case["rows"][0])]
         new_hdr = [h if h.strip() else "N" for h in new_hdr]
         extra_row = list(case["rows"][0])
         try:
@@ -355,19 +359,26 @@ def judge(sh, lab, case):
                 added = [list(extra_row)]
             io3 = lab.BufferedIO("", lab.AnsiFormatter(forced=True) if case["ansi"] else lab.PlainFormatter())
             io3.set_terminal_dimensions(lab.Rectangle(case["width"], 20))
+            if case["tagged"]:
+                lab.add_late_style(io3)  # every I/O of a tagged case knows the tags its cells use
             t.render(io3, case["indent"])
             fresh = lab.Table(lab.style(case["style"], case["padding"], case["aligns"]))
             fresh.set_header_row(list(new_hdr))
             fresh.add_rows(copy.deepcopy(case["rows"]) + added)
             io4 = lab.BufferedIO("", lab.AnsiFormatter(forced=True) if case["ansi"] else lab.PlainFormatter())
             io4.set_terminal_dimensions(lab.Rectangle(case["width"], 20))
+            if case["tagged"]:
+                lab.add_late_style(io4)  # every I/O of a tagged case knows the tags its cells use
             fresh.render(io4, case["indent"])
             sh.count("modify_then_render")
             if io3.fetch_output() != io4.fetch_output():
                 sh.violate("table-modified", case, "after set_header_row/add_row the table renders differently from a new table with the same content")
         except Exception as e:
-            if not (case["tagged"] and classify(case, "raises")):
-                sh.violate("table-modified", case, "re-rendering after set_header_row/add_row raised %r" % (e,), classify(case, "raises"))
+            # the known finding is judged on the table that was being rendered: the new header / the added row may make a
+            # column wrap (and a tag be cut) that did not wrap before
+            mod_case = dict(case, header=[h.lower() for h in new_hdr], rows=copy.deepcopy(case["rows"]) + added)
+            if not (case["tagged"] and (classify(case, "raises") or classify(mod_case, "raises"))):
+                sh.violate("table-modified", case, "re-rendering after set_header_row/add_row raised %r" % (e,), classify(mod_case, "raises"))
     lines = [visible(l) for l in out.split("\n")]
     if lines and lines[-1] == "":
         lines.pop()
